@@ -21,14 +21,6 @@ def typedDictKeyTable : List (Char × List Char) :=
    (Char.ofNat 13, [Char.ofNat 92, Char.ofNat 114]),
    (Char.ofNat 9, [Char.ofNat 92, Char.ofNat 116])]
 
-def patternTable : List (Char × List Char) :=
-  [(Char.ofNat 39, [Char.ofNat 92, Char.ofNat 39]),
-   (Char.ofNat 8, [Char.ofNat 92, Char.ofNat 98]),
-   (Char.ofNat 12, [Char.ofNat 92, Char.ofNat 102]),
-   (Char.ofNat 10, [Char.ofNat 92, Char.ofNat 110]),
-   (Char.ofNat 13, [Char.ofNat 92, Char.ofNat 114]),
-   (Char.ofNat 9, [Char.ofNat 92, Char.ofNat 116])]
-
 /-- (file, literal text before, literal text after) of each f-string embedding the escaped text -/
 def enumSites : List (String × String × String) :=
   [("parser/jsonschema.py", "'", "'"),
